@@ -3,6 +3,7 @@ package core
 import (
 	"encoding/base64"
 	"fmt"
+	"github.com/Oneledger/protocol/utils/verifclock"
 	"io"
 	"io/ioutil"
 	"os"
@@ -145,6 +146,17 @@ func NewReplica(c *Cluster, spec ReplicaSpec, base string) (*Replica, error) {
 func (r *Replica) Activate() {
 	tmrpccore.SetTxIndexer(r.Indexer)
 	identity.VerifSetETHWitness(r.Witness)
+	clockOwner = r.Spec.Index
+}
+
+// The wall-clock seam: the application's time.Now() calls are compiled as verifclock.Now() (build overlay,
+// cmd/genoverlay). Every simulated node sees the real clock plus its own skew of index x (1 day 1 h 1 min 1 s),
+// so that a wall-clock value that leaks into consensus state differs between replicas (and between a replica
+// and its shadow twin) in every unit from seconds to days. The reference replica (index 0) has no skew.
+var clockOwner int
+
+func init() {
+	verifclock.Offset = func() time.Duration { return time.Duration(clockOwner) * 90061 * time.Second }
 }
 
 // Start boots the node from its disk: real NewApp, generated Prepare half, real Handshaker.
